@@ -71,8 +71,10 @@ def run(prop, tier, modes):
     tie["failing"] = tie["failing"][:3]
     tie["broken"] = tie["broken"][:3]
     tie["extra"]["trait_mode_histogram"] = dict(hist)
+    tie["extra"]["types_named_like_a_segment_of_a_field_type"] = sum(m.get("self_named", 0) for m in metas.values())
     tie["rule"] = ("generic definitions (0-2 lifetimes with outlives bounds, 1-3 type parameters with inline bounds and defaults, 0-2 const "
-                   "parameters with default, 0-2 where-predicates; field types T, Option<T>, Vec<T>, PhantomData<T>, [T; N], (T, u8), &'a T, Box<T>) x "
+                   "parameters with default, 0-2 where-predicates; field types T, Option<T>, Vec<T>, PhantomData<T>, [T; N], (T, u8), &'a T, Box<T>; now and then the type itself is called `PhantomData`, "
+                   "like a segment of its field type) x "
                    "every trait incl. coupled pairs and Into x per-field ignore / method / expression choices x bound modes %s in every spelling; "
                    "expanded in-process; every real impl header (impl generics, self type, user where-clause as prefix, appended predicates) "
                    "compared with the required one. distinct_nontrivial = generic definitions with at least one appended predicate" % sorted(modes))
